@@ -376,6 +376,27 @@ pub fn drive(log: &mut Log) {
         run_raw(log, &st, b"$ab", &ks);
         log.oblige("run_ge_256_occ_rate_gt_256");
     }
+    // (e) hidden process-wide state: consecutive indexes IN ONE PROCESS over alphabets of equal size and
+    //     equal largest symbol but different members, in both orders; every (r, c) for the CURRENT alphabet
+    for g in 0..log.opts.n(4, 12) {
+        case += 1;
+        if !log.mine(case) {
+            continue;
+        }
+        let mut rng = Rng::new(seed, 27, case);
+        let mut group: Vec<&[u8]> = vec![b"$ACGT", b"$ACNT", b"$AGNT", b"$CGNT"];
+        if g % 2 == 1 {
+            group.reverse();
+        }
+        for al in group {
+            let letters: Vec<u8> = al.iter().cloned().filter(|&c| c != b'$').collect();
+            let n = rng.range(3, 90) as usize;
+            let mut text = rng.seq(n - 1, &letters);
+            text.push(b'$');
+            run_one(log, "glob", &text, al, &[1, 3, 65]);
+        }
+        log.oblige("same_size_same_max_different_alphabets_in_one_process");
+    }
     // (c) alphabet sweep: rank-transformed texts over dense integer alphabets 0..=max ending in the
     //     sentinel 0, for every max around '$' (36) and around 255, with and without '$' in the alphabet
     let maxes: Vec<u8> = (30..=40u8).chain([127u8, 128, 253, 254, 255].iter().cloned()).collect();
